@@ -2266,9 +2266,18 @@ def _set(
 
     if isinstance(key, tuple) and len(key):
         key = _unravel_key_to_tuple(key)
+        # inplace / non_blocking are passed on (they were dropped: a locked tensorclass
+        # refused tc.set(("x",), value, inplace=True), which its tensordict performs)
         if len(key) > 1:
-            return self.set(key[0], getattr(self, key[0]).set(key[1:], value))
-        out = self.set(key[0], value)
+            return self.set(
+                key[0],
+                getattr(self, key[0]).set(
+                    key[1:], value, inplace=inplace, non_blocking=non_blocking
+                ),
+                inplace=inplace,
+                non_blocking=non_blocking,
+            )
+        out = self.set(key[0], value, inplace=inplace, non_blocking=non_blocking)
         return out
     raise ValueError(
         f"Supported type for key are str and tuple, got {key} of type {type(key)}"
